@@ -86,6 +86,49 @@ CHECKS['C07'] = {
 	'ref': 'DESIGN.md §5 C07, §10',
 }
 
+CHECKS['C03'] = {
+	'text': 'Partial (expression core): Lean model of ProceduralResolver, try_operation and TemplateManipulator over the dunder/method table translated from classes.py: every scalar row of the table states CPython\'s result type (dunder, dunder_unary, step_agreement by decide over the whole table); on the agreement core (Core = WellTyped) inference never fails, contains no Unknown (total) and the inferred type denotes the run-time value for every expression, environment and session state (sound_conf, sound); inference is independent of session history (session_independent); template resolution keeps every element type (template). Counterexamples outside the core for the listed known findings. Tied to the code by two streams (real Reflections.type_of vs model; CPython type(eval(e)) vs typeOf∘eval). Scope lookup, inheritance, user classes, enums, user generics and resolve_unknown are search-only: a run-time recorder under CPython vs type_of on generated expressions and whole programs.',
+	'note': TB + ' Ten known findings (stub simplifications and Union handling), each with its own key; programs CPython rejects although the stub accepts them and operations the stub library does not declare are outside the quantifier.',
+	'technique': 'Lean 4 proof (mutual structural induction over expressions, decide over the translated stub table) + differential correspondence + run-time type recorder search',
+	'ref': 'DESIGN.md §5 C03, §10',
+}
+CHECKS['C04'] = {
+	'text': 'Partial (session / cache-coherence model): Lean theorems over a model of Modules/Entrypoints/SymbolDB/per-module memo tables/symbol files/transpiler and Procedure stacks with ops load, transpile (may fail midway), unload (cascade), resubmit: the coherence invariant holds initially and after every op incl. failing ones (inv); load and unload leave every other registered module untouched (frame, unload_exact on the key strings incl. prefix names); det: two processes over the same files give the same transpile result (text, render error or load error) whatever their histories (true since fix commits f3f812f, 153b103, 023f8e8); unload;load = fresh load; Runner results are permutation-equivariant. Parsing, ExpandModules and rendering are a parameter with stated locality hypotheses. Tied to the code by two op-sequence streams in one long-lived real App. Byte equality with a fresh process under PYTHONHASHSEED ∈ {0,1,2,random}, Interactive re-submissions, target permutations and frame snapshots are searched on the real code.',
+	'note': TB + ' Hypotheses: dotted module names without #, acyclic imports, no file imports __main__, library base not unloaded in theorems (streams/search cover it), model fuel not exhausted. Hash-seed independence and byte-level equality are search-only.',
+	'technique': 'Lean 4 proof (invariants by induction over op sequences, refinement to a reference function of the sources) + differential correspondence + fresh-process oracle search',
+	'ref': 'DESIGN.md §5 C04, §10',
+}
+CHECKS['C05'] = {
+	'text': 'Partial: Lean theorems over an executable model of the three cache layers (file system with strictly increasing mtimes, identities exactly as coded incl. the closure-keyed Module.identity of fix a383b4a, glob eviction, non-atomic save, truncation, enabled flag, persistor gates): tree-cache coherence along every history ⇒ warm tree = cold tree; eviction never removes the file being written and coherence survives deleting any cache files (over-matching glob benign); no proper prefix of a compact JSON object/array is bracket-balanced outside strings (truncate); each module\'s warm symbol table equals its cold one for every semantics, graph and acyclic history (symbols); with caching disabled nothing under the cache directory is read or written (disabled). Tied to the code by the cachefs stream (real CLI in temp projects: listing with digests renamed by first appearance + audited file accesses). Rendered-text equality warm vs cold, truncation at every offset and the disabled case are searched on the real code.',
+	'note': TB + ' Hypotheses: md5 injective on the identities of a history, the decoder rejects unbalanced text, acyclic imports, module keys without "-". Rendered text is a parameter (text equality and failure-status equality are search-only); the parser pickle is search-only.',
+	'technique': 'Lean 4 proof (loader invariants over histories) + differential correspondence with audited file accesses + warm-vs-cold / truncation search',
+	'ref': 'DESIGN.md §5 C05, §10',
+}
+CHECKS['C06'] = {
+	'text': 'Partial (runner decision model): header read-back proved on the json.dumps printer model (header_rt; counterexample without trailing newline), regeneration decision (regen), untouched files, -f always forces (force_flag, since fix 4888761), decidable path-overlap check ⇔ injective output paths, fallback-only configurations injective; the fix-point law (plain run = forced run) is proved for all histories under own-source-only outputs, injective hashes and distinct paths, and refuted in general (known findings). Tied to the code by four streams (string primitives, header, paths, real-CLI runner histories); fix-point, header round trip with non-default versions and path correctness vs an independent reference are searched on the real code.',
+	'note': TB + ' json.loads, md5 and the transpiler body are parameters; JSON values without floats; glob conditions over [A-Za-z0-9_/.*-]. Three known findings: stale-dependant-output, output-path-collision-prefix, output-path-collision-glob.',
+	'technique': 'Lean 4 proof (string-slicing lemmas on the printer, decision logic, history induction) + differential correspondence + fix-point search',
+	'ref': 'DESIGN.md §5 C06, §10',
+}
+CHECKS['C08'] = {
+	'text': 'Partial (equivariance of name resolution): for every injective renaming fixing reserved words, symbol lookup (scope walk, class-scope rule, import, library fall-back, inheritance walk), scope/namespace/fullyname construction and declaration merging commute with the renaming on the abstract layer; for well-formed identifier names the string implementation on module#a.b keys (ModuleDSN, startswith/replace/split) computes exactly the encoding of the abstract layer for every function incl. VarsCollector._merged (true since fix 526fc7c). Tied to the code by four streams against both layers. The metamorphic law transpile(r(P)) == r(transpile(P)) on output, symbol keys and type strings, sibling-scope independence and agreement with CPython symtable are searched on the real code.',
+	'note': TB + ' The regex/string post-processing of rendered fragments (py2cpp.py) and the templates are search-only; no multi-module in-memory programs; ASCII identifiers only.',
+	'technique': 'Lean 4 proof (equivariance by structural induction; string-layer refinement via codec lemmas) + differential correspondence + metamorphic renaming search',
+	'ref': 'DESIGN.md §5 C08, §10',
+}
+CHECKS['C11'] = {
+	'text': 'Partial: Lean theorems over an executable model of the self-hosted engine (SyntaxParser matcher, ErrorCollector, rule.py): termination with an explicit linear fuel bound for every rule set passing a decidable well-formedness check, both shipped rule sets kernel-decided; a tree is returned only if every token was consumed, otherwise Errors.Syntax; the tree\'s leaves are exactly the tokens matched by named terminals, in source order; ladder rules yield flat chains (the five py ladders kernel-decided); the error line is within range under the source-map guard (counterexample for EOF-derived tokens = known finding). Tied to the code by the rules translator (regexps as classification tables evaluated by the real re) and three streams on real token lists. canon(engine tree) == canon(CPython ast) on grammar-derived sentences and the behaviour on mutated texts are search-only.',
+	'note': TB + ' Regexps and the tokenizer enter as trusted inputs (real token lists / classification tables); agreement with CPython grouping is search-only. One known finding: error-line:eof-derived-cause-token.',
+	'technique': 'Lean 4 proof (fuel-bounded matcher, decide +kernel over translated rule sets) + differential correspondence + CPython-ast oracle search',
+	'ref': 'DESIGN.md §5 C11, §10',
+}
+CHECKS['C12'] = {
+	'text': 'Partial: Lean theorems over Rules.from_ast, Prettier, Pattern.make, render_rules and the engine: AST-level round trip in both directions; both fixed points kernel-evaluated on the real token lists of gram.lark and py_gram.lark incl. the exact text of py_rules.py; the text-level law reduced to one hypothesis (the engine parses the printout into toAst g) and kernel-checked on recorded witnesses. Tied to the code by the translator and two streams; the round-trip law on generated grammars, module texts on disk and compiled-vs-original rules on sentences are searched on the real code.',
+	'note': TB + ' The general text-level law is search-only; the gram tokenizer enters as real token lists.',
+	'technique': 'Lean 4 proof (structural induction, decide +kernel on translated data) + differential correspondence + round-trip search',
+	'ref': 'DESIGN.md §5 C12, §10',
+}
+
 NOT_YET = {
 }
 
